@@ -382,6 +382,128 @@ def report_hits(ctx, hits):
                       msgs[0] if msgs else msg)
 
 
+# ------------------------------------------------------------------------------------------
+# model level: the step limit inside runs of the models that own a population balance
+def ref_diss_index(psd, size, md, mi):
+    """first class at which the cumulative volume exceeds md of the total (property text), not below mi;
+    also returns whether the comparison is within rounding of a tie"""
+    vol = np.asarray(psd, dtype=float) * np.asarray(size, dtype=float) ** 3
+    cum = np.cumsum(vol)
+    frac = md * cum[-1]
+    above = cum > frac
+    idx = int(np.argmax(above)) if above.any() else 0
+    tie = bool(np.any(np.abs(cum - frac) <= 1e-9 * max(abs(frac), 1e-300)))
+    return max(idx, int(mi)), tie
+
+
+GRAIN_CFGS = [
+    {'name': 'grain-rk4-lognormal', 'grid': (1e-10, 1e-8, 150, 100, 200), 'mu': 3e-9, 's': 0.3, 'solver': 'RK4', 'time': 1.2e-2},
+    {'name': 'grain-euler-lognormal', 'grid': (1e-10, 1e-8, 60, 40, 80), 'mu': 2e-9, 's': 0.4, 'solver': 'EXPLICITEULER', 'time': 6e-3},
+    {'name': 'grain-rk4-narrow', 'grid': (1e-9, 2e-8, 40, 30, 50), 'mu': 6e-9, 's': 0.15, 'solver': 'RK4', 'time': 5e-2},
+]
+
+
+def grain_run(cfg):
+    """run a GrainGrowthModel and record the state at every getDt call (instance-level wrapper)"""
+    import io, contextlib
+    from kawin.precipitation.coupling import GrainGrowthModel
+    from kawin.solver import SolverType
+    m = GrainGrowthModel(*cfg['grid'])
+    mu, s = cfg['mu'], cfg['s']
+    m.LoadDistributionFunction(lambda R: np.exp(-0.5 * ((np.log(R) - np.log(mu)) / s) ** 2) / R)
+    recs = []
+    orig = m.getDt
+
+    def obs(dXdt):
+        dt = orig(dXdt)
+        pbm = m.pbm
+        recs.append({'kind': 'run:' + cfg['name'], 'n': int(pbm.bins), 'bounds': [float(x) for x in pbm.PSDbounds], 'psd': [float(x) for x in pbm.PSD],
+                     'g': [float(x) for x in m._growthRate], 'dt': float(dt), 'nuc': 0.0, 'rn': 0.0, 'cur': float(m.finalTime - m.time[-1]),
+                     'mr': 0.4, 'md': float(m.maxDissolution), 'd': int(m.dissolutionIndex), 'mi': 0, 'time': float(m.time[-1]), 'step': len(recs)})
+        return dt
+    m.getDt = obs
+    with contextlib.redirect_stdout(io.StringIO()):
+        m.solve(cfg['time'], solverType=getattr(SolverType, cfg['solver']), verbose=False)
+    return recs
+
+
+def run_oracle(c):
+    """the step limit of a model run: the index handed to getDTEuler is the dissolution threshold of the distribution
+    about to be transported (on its own grid), and the step is the stated fraction of the class width over the fastest
+    growth rate among the occupied classes from that threshold on"""
+    v = []
+    b, psd, g = np.array(c['bounds']), np.array(c['psd']), np.array(c['g'])
+    size = 0.5 * (b[1:] + b[:-1])
+    if len(psd) != len(size) or len(g) != len(b):
+        return [('step_limit_in_runs', 'shape', 'step %d of %s: distribution (%d), grid (%d classes) and growth field (%d) do not match' % (c['step'], c['kind'], len(psd), len(size), len(g)))]
+    if psd.sum() <= 0:
+        return v
+    idx, tie = ref_diss_index(psd, size, c['md'], c['mi'])
+    if c['d'] != idx and not tie:
+        cum = np.cumsum(psd * size ** 3)
+        below = cum[c['d'] - 1] / cum[-1] if c['d'] > 0 else 0.0
+        v.append(('step_limit_in_runs', 'stale_dissolution_index',
+                  'step %d of %s (t = %r, %d classes): the step limit ignores the classes below index %d, which hold %.3e of the volume (allowed %.1e); the dissolution threshold of this distribution on this grid is index %d'
+                  % (c['step'], c['kind'], c['time'], c['n'], c['d'], below, c['md'], idx)))
+    occ = [k for k in range(idx, len(psd)) if psd[k] > 0]
+    fastest = max((abs(g[k]) for k in occ), default=0.0)
+    want = c['cur'] if fastest == 0 else c['mr'] * (b[1] - b[0]) / fastest
+    if not tie and abs(c['dt'] - want) > 1e-9 * abs(want):
+        v.append(('step_limit_in_runs', 'dt', 'step %d of %s (t = %r, %d classes): step %r, stated rule %r (%.3f of a class width for the fastest relevant class)'
+                  % (c['step'], c['kind'], c['time'], c['n'], c['dt'], want, fastest * c['dt'] / (b[1] - b[0]))))
+    return v
+
+
+def model_runs(ctx):
+    """returns (states sampled for the in-Coq correspondence, number of states checked)"""
+    sampled, total = [], 0
+    cfgs = GRAIN_CFGS if not ctx.quick else GRAIN_CFGS[:2]
+    seen = set()
+    for cfg in cfgs:
+        recs = grain_run(cfg)
+        total += len(recs)
+        regrid = [i for i in range(1, len(recs)) if recs[i]['n'] != recs[i - 1]['n']]
+        ctx.hist('grain_run', '%s:%d steps,%d regrids' % (cfg['name'], len(recs), len(regrid)))
+        for c in recs:
+            for (cl, cls, msg) in run_oracle(c):
+                if (cl, cls) in seen:
+                    continue
+                seen.add((cl, cls))
+                ctx.violation(cl, {'site': 'kawin/precipitation/coupling/GrainGrowth.py', 'cls': cls},
+                              {'kind': 'history', 'run': cfg, 'step': c['step'], 'state': hexcase(c), 'observed': msg,
+                               'oracle': 'harness/c07.py: run_oracle (threshold and rule recomputed from the property text on the state at the getDt call)'}, msg)
+        # states for the correspondence with the Coq model: first, last, around each re-grid, a spread of others
+        pick = set([0, len(recs) - 1] + [j for i in regrid for j in (i - 1, i, i + 1) if 0 <= j < len(recs)])
+        pick |= set(int(x) for x in np.linspace(0, len(recs) - 1, 6 if ctx.quick else 40))
+        sampled += [recs[i] for i in sorted(pick)]
+    # precipitation model on the stub backend: the index it keeps per phase is the threshold of the distribution it holds
+    import kwn_trace
+    for cfg in [{'name': 'kwn-euler', 'phases': ('B1',), 'iterator': 'euler', 'segments': [1.5e3]},
+                {'name': 'kwn-euler-2phase', 'phases': ('B1', 'B2'), 'gammas': [0.15, 0.12], 'iterator': 'euler', 'segments': [600.0]}][:1 if ctx.quick else 2]:
+        try:
+            tr = kwn_trace.run_binary(cfg)
+        except kwn_trace.RunTimeout as e:
+            ctx.violation('run_terminates', {'site': SITE, 'cls': 'run did not finish'}, {'kind': 'history', 'run': cfg['name'], 'observed': str(e)}, 'precipitation run %s did not finish: %s' % (cfg['name'], e))
+            continue
+        md = tr.model.constraints.maxDissolution
+        for st in tr.steps:
+            a = st['after']
+            total += 1
+            for p in range(len(a['psd'])):
+                if np.sum(a['psd'][p]) <= 0:
+                    continue
+                idx, tie = ref_diss_index(a['psd'][p], a['size'][p], md, a['rdfi'][p])
+                if int(a['dissIdx'][p]) != idx and not tie and ('step_limit_in_runs', 'kwn_index') not in seen:
+                    seen.add(('step_limit_in_runs', 'kwn_index'))
+                    msg = 'step %d of %s, phase %d: the model keeps dissolution index %d for its step limit; the threshold of the distribution it holds (%d classes) is %d' % (a['n'], cfg['name'], p, int(a['dissIdx'][p]), len(a['psd'][p]), idx)
+                    ctx.violation('step_limit_in_runs', {'site': 'kawin/precipitation/KWNEuler.py', 'cls': 'kwn_index'},
+                                  {'kind': 'history', 'run': cfg['name'], 'step': int(a['n']), 'observed': msg, 'psd': [hexf(x) for x in a['psd'][p]], 'size': [hexf(x) for x in a['size'][p]]}, msg)
+        ctx.hist('kwn_run', '%s:%d steps' % (cfg['name'], len(tr.steps)))
+    ctx.cov['traces_validated_against_impl'] += len(cfgs)
+    return sampled, total
+
+
+
 def run(ctx):
     quick = ctx.quick
     ctx.cov['rule'] = ('inputs generated per kind (exact dyadic / physical 1/R growth / random / sparse / huge dynamic range), '
@@ -394,6 +516,9 @@ def run(ctx):
                       'theorem %s no longer checks' % t, no_input=True)
     ncases = 240 if quick else 4000
     cases = corpus_cases() + [gen_case(ctx.rng, i, quick) for i in range(ncases)]
+    run_states, nrun = model_runs(ctx)
+    ctx.notes['run_states_checked'] = nrun
+    cases += run_states
     dis, hits = explore(ctx, cases, 'main')
     report_hits(ctx, hits)
     if dis and not hits:
